@@ -12,12 +12,12 @@ Python's own `ast`, independently of the model."""
 from __future__ import annotations
 
 import ast
-import copy
 import itertools
 import re
+import time
 
 from vlib import common as V
-from vlib import progs, transcorr
+from vlib import lexcorr, progs, transcorr
 
 ALPHABET = ['"', "'", "\\", "\n", "[", "]", "(", ")", "^", "`", ":", ";", "a", "Z", "0", "9", "_", " "]
 
@@ -126,34 +126,36 @@ def canon_ident(name):
     return name
 
 
-class _Norm(ast.NodeTransformer):
-    """statement header with constants blanked to their type and program identifiers to their prefix"""
+_BODY_FIELDS = ("body", "orelse", "finalbody", "handlers")
 
-    def visit_Constant(self, node):
-        return ast.Constant(value=type(node.value).__name__)
 
-    def visit_Name(self, node):
-        return ast.Name(id=canon_ident(node.id), ctx=ast.Load())
-
-    def visit_Attribute(self, node):
-        return ast.Attribute(value=self.visit(node.value), attr=canon_ident(node.attr), ctx=ast.Load())
+def _sd(x, top):
+    """canonical text of a node: constants blanked to their type, program identifiers to their
+    prefix, expression contexts and positions dropped; at the top (a statement) the nested
+    statement lists are left out"""
+    if isinstance(x, ast.Constant):
+        return "C:" + type(x.value).__name__
+    if isinstance(x, ast.Name):
+        return "N:" + canon_ident(x.id)
+    if isinstance(x, ast.AST):
+        parts = [type(x).__name__]
+        for name, value in ast.iter_fields(x):
+            if name in ("ctx", "type_comment"):
+                continue
+            if top and name in _BODY_FIELDS and isinstance(value, list) and all(isinstance(v, (ast.stmt, ast.excepthandler)) for v in value):
+                continue
+            if isinstance(value, str) and name in ("attr", "name"):
+                value = canon_ident(value)
+            parts.append(name + "=" + _sd(value, False))
+        return "(" + " ".join(parts) + ")"
+    if isinstance(x, list):
+        return "[" + ",".join(_sd(v, False) for v in x) + "]"
+    return repr(x)
 
 
 def stmt_shape(node):
-    """canonical text of one statement without the statements nested in it"""
-    fields = {}
-    for name, value in ast.iter_fields(node):
-        if name in ("body", "orelse", "finalbody", "handlers") and isinstance(value, list) and all(isinstance(v, (ast.stmt, ast.excepthandler)) for v in value):
-            fields[name] = []
-        elif name in ("lineno", "col_offset", "end_lineno", "end_col_offset", "type_comment"):
-            continue
-        elif name == "name" and isinstance(value, str):
-            fields[name] = canon_ident(value)
-        else:
-            fields[name] = value
-    clone = copy.deepcopy(type(node)(**fields))   # NodeTransformer works in place: never touch the audited tree
-    clone = _Norm().visit(clone)
-    return ast.dump(clone, annotate_fields=False)
+    """canonical text of one statement without the statements nested in it (the tree is not modified)"""
+    return _sd(node, True)
 
 
 def names_of(tree):
@@ -198,8 +200,20 @@ def build_vocab(tables):
     return VOCAB
 
 
+_AUDIT_CACHE = {}
+
+
 def audit(code, marker):
     """the property on one generated text; returns None or (class, message)"""
+    key = (code, marker)
+    if key not in _AUDIT_CACHE:
+        if len(_AUDIT_CACHE) > 20000:
+            _AUDIT_CACHE.clear()
+        _AUDIT_CACHE[key] = _audit(code, marker)
+    return _AUDIT_CACHE[key]
+
+
+def _audit(code, marker):
     tree = ast.parse(code)
     v = VOCAB
     const_hits = 0
@@ -260,6 +274,13 @@ def oracle_one(item):
     try:
         bad = audit(code, marker)
     except (SyntaxError, ValueError) as e:   # ValueError: null byte in the source text
+        # the text does not parse, so nothing of it can run; what can still be said about the
+        # text itself: an identifier the transpiler builds never continues outside [A-Za-z0-9_]
+        # (\w is Unicode-aware, the class in IDENT is explicit ASCII)
+        if "VAR_" not in src and "_lambda_" not in src:
+            for m in re.finditer(r"(?:VAR_|_lambda_)\w*", code):
+                if not IDENT.match(m.group(0)):
+                    return ("bad", ("non-ascii-identifier-text", f"identifier text {m.group(0)!r} continues outside [A-Za-z0-9_] (and the text does not compile: {type(e).__name__})", code[:600]))
         return ("syntax", type(e).__name__)
     if bad is None:
         return ("ok", code.count("\n"))
@@ -321,6 +342,73 @@ def random_unicode(env, cp, n, maxlen=60):
     return out
 
 
+ARROWS = ["\u2192", "\u2190"]    # variable set, variable get
+
+
+def letter_like(cp):
+    """code-page characters a careless scan might take for part of a name (Unicode-aware
+    isalnum / isnumeric / isidentifier), plus the ASCII digits, a, Z and _"""
+    out = [c for c in cp if (c.isalnum() or c.isnumeric() or c.isidentifier()) and not (c.isascii() and c.isalpha())]
+    return out + ["a", "Z"]
+
+
+def variable_sources(cp):
+    """(singles, pairs): every code-page character directly after the arrow (plain and in the
+    `_`-prefixed ctx.VAR_ form, alone, followed by code, after a letter), and all pairs over
+    the letter-like / digit-like characters"""
+    singles, pairs = [], []
+    for ar in ARROWS:
+        for c in cp:
+            singles += [ar + c, ar + "_" + c, ar + c + " +", ar + "a" + c, "1 " + ar + c + "a"]
+        ll = letter_like(cp)
+        for x in ll:
+            for y in ll:
+                pairs.append(ar + x + y)
+            pairs.append(ar + "_" + x + "a")
+    return list(dict.fromkeys(singles)), list(dict.fromkeys(pairs))
+
+
+PREAMBLE_DV = transcorr.PREAMBLE + (
+    "Definition transpile_dv (src : list N) : outcome :=\n"
+    "  match parse_tokens (tokenise_dv true src) with\n"
+    "  | Ok l => match transpile_ast (fun s => s) l with TOk x => OText x | TErr e => OTranspileErr e end\n"
+    "  | Err e => OParseErr e\n"
+    "  | OutOfFuel => OFuel\n"
+    "  end.\n")
+CHECKER_DV = "fun c => match c with (s, code, text) => vy_same (transpile_dv s) code text end"
+
+
+def impl_transpile_dv(src):
+    from vyxal.lexer import tokenise
+    from vyxal.parse import parse
+    from vyxal.transpile import transpile_ast
+    try:
+        tree = parse(tokenise(src, True))
+    except (IndexError, ValueError, AssertionError) as e:
+        return (transcorr.ERR[type(e).__name__], "")
+    try:
+        return (0, transcorr.normalise(transpile_ast(tree, dict_compress=False)))
+    except ValueError:
+        return (4, "")
+
+
+def check_dv(env, sources):
+    """exact-text correspondence in variables-as-digraphs mode (Model/Lexer.v tokenise_dv true)"""
+    sources = list(dict.fromkeys(sources))
+    res = V.pmap(impl_transpile_dv, sources, timeout=20)
+    cases = [(s, r[0], r[1]) for s, (st, r) in zip(sources, res) if st == "ok"]
+    ok, bad, logs = env.coq_mismatches(
+        "c18dv", PREAMBLE_DV, lambda lo, hi: "[" + ";\n".join(transcorr.case_coq(*c) for c in cases[lo:hi]) + "]", CHECKER_DV, len(cases), shard=400)
+    if not ok:
+        env.proof_broken("transpiler correspondence (variables-as-digraphs mode) failed to evaluate in Coq", logs)
+    for i in bad:
+        env.disagree("transpiler-dv", {"source": cases[i][0], "variables_as_digraphs": True}, "(model text differs)",
+                     {"code": cases[i][1], "text": cases[i][2][:400]})
+    env.count(len(cases), (f"trdv:{s}" for s, c, t in cases if c == 0))
+    env.note("transpiler_dv_cases", len(cases))
+    env.note("transpiler_dv_impl_other_exceptions", len(sources) - len(cases))
+
+
 def run(env, with_model=True):
     t = env.tables
     cp = list(t["encoding"]["codepage"])
@@ -339,7 +427,9 @@ def run(env, with_model=True):
         "templates, computed with ast from the regenerated tables) or VAR_/_lambda_ + [A-Za-z0-9_]* (ctx.VAR_...), every statement header (constants "
         "blanked to their type, program identifiers to their prefix) equal to a vocabulary statement, and every occurrence of the payload marker ZQX "
         "inside a string constant or such an identifier.  The oracle additionally gets marker payloads at every position and random Unicode "
-        "outside the code page.  Non-trivial = transpile returned code and the payload / string holds at least one non-alphanumeric "
+        "outside the code page.  Variable names get the whole code page: every code-page character directly after each arrow (plain, `_`-prefixed "
+        "ctx.VAR_ form, followed by code, after a letter) and all pairs over the letter-like / digit-like code-page characters, in both lexer "
+        "modes (variables_as_digraphs off and on) for the oracle, the lexer correspondence and the text correspondence.  Non-trivial = transpile returned code and the payload / string holds at least one non-alphanumeric "
         "character; distinct by (mode, source).")
     vocab = build_vocab(t)
     env.note("vocabulary", {"statement_shapes": len(vocab["shapes"]), "names": len(vocab["names"]), "attributes": len(vocab["attrs"]),
@@ -355,10 +445,13 @@ def run(env, with_model=True):
     gen = [progs.text(g.program(env.rng.randint(1, 4))) for _ in range(env.budget(400, 4000))]
     uni = random_unicode(env, cp, env.budget(1500, 15000))
     marked = [(name, m, inject(tpl, m)) for name, tpl in POSITIONS for m in MARKERS]
+    var_single, var_pair = variable_sources(cp)
+    var_pair_corr = env.rng.sample(var_pair, min(len(var_pair), env.budget(1500, 8000)))
+    var_pos = [s for name, _, s in pos if name.startswith("variable") or name == "string_in_structures"]
 
     # ---- (1) text correspondence (code-page characters only: the text model is exact there) -----
     cpset = set(cp)
-    corr = [s for _, _, s in pos] + raw + rnd + gen + [s for _, _, s in marked if set(s) <= cpset]
+    corr = [s for _, _, s in pos] + var_single + var_pair_corr + raw + rnd + gen + [s for _, _, s in marked if set(s) <= cpset]
     corr = [s for s in dict.fromkeys(corr) if set(s) <= cpset]
     cap = 90000
     if len(corr) > cap:
@@ -376,8 +469,22 @@ def run(env, with_model=True):
         corr = keep + env.rng.sample(rest_pos, take_pos) + env.rng.sample(rest_raw, take_raw)
         env.note("correspondence_sampling", {"cap": cap, "kept_exhaustive": len(keep), "top_length_position_payloads": f"{take_pos} of {len(rest_pos)}",
                                              "top_length_raw_strings": f"{take_raw} of {len(rest_raw)}"})
+    t0 = time.time()
+    phase = {}
     if with_model:
         transcorr.check(env, corr, name="c18tr", shard=400)
+        phase["text_correspondence_s"] = round(time.time() - t0, 1)
+        t0 = time.time()
+        # both lexer modes: token lists, and the transpiled text in variables-as-digraphs mode
+        lex_items = [(s, dv) for s in var_single + var_pair_corr for dv in (False, True)]
+        lexcorr.check(env, lex_items, name="c18lex")
+        phase["lexer_correspondence_s"] = round(time.time() - t0, 1)
+        t0 = time.time()
+        check_dv(env, var_single + var_pair_corr + var_pos + rnd[: env.budget(200, 2000)] + gen[: env.budget(200, 2000)])
+        phase["dv_text_correspondence_s"] = round(time.time() - t0, 1)
+    env.note("variable_name_inputs", {"single_character_forms": len(var_single), "pairs_over_letter_like": len(var_pair),
+                                      "letter_like_characters": "".join(letter_like(cp)), "pairs_in_coq_correspondence": len(var_pair_corr),
+                                      "modes": "oracle: (dict off, dv off), (dict off, dv on), (dict on, dv on); lexer and text correspondence: dv off and dv on"})
     env.note("correspondence_inputs", {"position_payload": len(pos), "raw": len(raw), "random_codepage": len(rnd), "generated_programs": len(gen)})
 
     # ---- (2) the oracle on the implementation ------------------------------------------------------
@@ -390,6 +497,14 @@ def run(env, with_model=True):
     for s in raw + rnd + gen + uni:
         items.append((s, False, False, ""))
         items.append((s, True, False, ""))
+    for s in var_single:
+        for dc, dv in ((False, False), (False, True), (True, True)):
+            items.append((s, dc, dv, ""))
+    for s in var_pair:
+        for dc, dv in env.budget(((False, False), (False, True)), ((False, False), (False, True), (True, True))):
+            items.append((s, dc, dv, ""))
+    for s in rnd + gen + uni[: len(uni) // 3]:
+        items.append((s, False, True, ""))
     for name, m, s in marked:
         for dc, dv in ((False, False), (True, False), (False, True)):
             items.append((s, dc, dv, "ZQX"))
@@ -400,7 +515,10 @@ def run(env, with_model=True):
         s = a[:k] + env.rng.choice(MARKERS) + a[k:]
         items.append((s, env.rng.random() < 0.5, False, "ZQX"))
     items = list(dict.fromkeys(items))
+    t0 = time.time()
     res = V.pmap(oracle_one, items, timeout=20)
+    phase["oracle_s"] = round(time.time() - t0, 1)
+    env.note("phase_seconds", phase)
     stats = {"ok": 0, "raise": 0, "syntax": 0, "timeout": 0, "exc": 0, "bad": 0}
     raises = {}
     syntax_samples = []
